@@ -103,3 +103,25 @@ Proof. vm_compute. split; reflexivity. Qed.
 Lemma data_home_env : forall d, data_home None (Some d) = d /\ data_home (Some d) None = d /\
   data_home None None = "~/.traffic-weaver-data".
 Proof. intros; repeat split. Qed.
+
+(** every bundled series meets the hypotheses of the pipeline theorems (C02): strictly increasing abscissae, >= 2 points,
+    equal lengths *)
+Lemma bundled_meet_pipeline_hyps : forall f g xs ys, In (f, g, xs, ys) bundled_files ->
+  ssortedb xs = true /\ (2 <= length xs)%nat /\ length xs = length ys.
+Proof.
+  assert (H : forallb (fun b => let '(_, _, xs, ys) := b in ssortedb xs && Nat.leb 2 (length xs) && Nat.eqb (length xs) (length ys)) bundled_files = true)
+    by (vm_compute; reflexivity).
+  intros f g xs ys Hin. pose proof (proj1 (forallb_forall _ _) H _ Hin) as Hb. cbn in Hb.
+  apply andb_prop in Hb. destruct Hb as [Hb H3]. apply andb_prop in Hb. destruct Hb as [H1 H2].
+  repeat split; [exact H1 | now apply Nat.leb_le | now apply Nat.eqb_eq].
+Qed.
+
+Lemma ssortedb_sound : forall l, ssortedb l = true -> ssorted l.
+Proof.
+  induction l as [|a [|b l] IH]; intros H; cbn in *; auto.
+  apply andb_prop in H. destruct H as [H1 H2]. split; [now apply Qc_ltb_true | apply IH; exact H2].
+Qed.
+
+Lemma bundled_pipeline_hyps : forall f g xs ys, In (f, g, xs, ys) bundled_files ->
+  ssorted xs /\ (2 <= length xs)%nat /\ length xs = length ys.
+Proof. intros f g xs ys H. destruct (bundled_meet_pipeline_hyps f g xs ys H) as [H1 [H2 H3]]. repeat split; auto. now apply ssortedb_sound. Qed.
